@@ -15,7 +15,7 @@ from vpkit import common, zoo
 
 ID = "C10"
 N = {"quick": 170, "thorough": 6500}
-BUDGET = {"quick": 240.0, "thorough": 1800.0}
+BUDGET = {"quick": 240.0, "thorough": 2400.0}
 RULE = ("case = (single-tree shape, mutation count per edge incl. mutations above the root, user "
         "timegrid of 2-7 points, prior distribution, eps, probability space, outside_standardize); "
         "thorough additionally enumerates ALL shapes with <=4 leaves x ALL mutation patterns over "
